@@ -97,6 +97,7 @@ structure Mono (w w' : World) : Prop where
   fsub : ∀ f, f ∈ w'.faults → f ∈ w.faults
   alive : ∀ j, (getConn w' j).alive = true → (getConn w j).alive = true
   stuck : w.stuck = true → w'.stuck = true
+  cret : w'.connectReturned = w.connectReturned
 
 theorem Mono.refl (w : World) : Mono w w := by
   constructor <;> simp
@@ -117,6 +118,7 @@ theorem Mono.trans {a b c : World} (h1 : Mono a b) (h2 : Mono b c) : Mono a c wh
   fsub := fun f hf => h1.fsub f (h2.fsub f hf)
   alive := fun j hj => h1.alive j (h2.alive j hj)
   stuck := fun h => h2.stuck (h1.stuck h)
+  cret := h2.cret.trans h1.cret
 
 /-- `silent` faults are covered by a response timeout -/
 def Sil (w : World) : Prop := Fault.silent ∈ w.faults → w.cfg.respTimeout = true
@@ -201,33 +203,33 @@ theorem Quiet.trans {a b c : World} (h1 : Quiet a b) (h2 : Quiet b c) : Quiet a 
     h2.stuck.trans h1.stuck⟩
 
 theorem quiet_logPkt (w : World) (k : Nat) (p : Pkt) (x : Wire) : Quiet w (logPkt w k p x) := by
-  refine ⟨⟨?_, ?_, ?_, ?_, ?_, ?_, ?_, ?_, ?_, ?_, ?_, ?_, ?_, ?alive, ?_⟩, ?_, ?_, ?_, ?_⟩
+  refine ⟨⟨?_, ?_, ?_, ?_, ?_, ?_, ?_, ?_, ?_, ?_, ?_, ?_, ?_, ?alive, ?_, ?_⟩, ?_, ?_, ?_, ?_⟩
   case alive => intro j; rw [alive_logPkt]; exact id
   all_goals simp [logPkt, setConn]
 
 theorem quiet_kill (w : World) (k : Nat) : Quiet w (kill w k) := by
-  refine ⟨⟨?_, ?_, ?_, ?_, ?_, ?_, ?_, ?_, ?_, ?_, ?_, ?_, ?_, ?alive, ?_⟩, ?_, ?_, ?_, ?_⟩
+  refine ⟨⟨?_, ?_, ?_, ?_, ?_, ?_, ?_, ?_, ?_, ?_, ?_, ?_, ?_, ?alive, ?_, ?_⟩, ?_, ?_, ?_, ?_⟩
   case alive => intro j; rw [alive_kill]; split <;> simp
   all_goals simp [kill, setConn]
 
 theorem quiet_setCtr (w : World) (k x : Nat) :
     Quiet w (setConn w k { getConn w k with ctr := x }) := by
-  refine ⟨⟨?_, ?_, ?_, ?_, ?_, ?_, ?_, ?_, ?_, ?_, ?_, ?_, ?_, ?alive, ?_⟩, ?_, ?_, ?_, ?_⟩
+  refine ⟨⟨?_, ?_, ?_, ?_, ?_, ?_, ?_, ?_, ?_, ?_, ?_, ?_, ?_, ?alive, ?_, ?_⟩, ?_, ?_, ?_, ?_⟩
   case alive => intro j; rw [alive_setCtr]; exact id
   all_goals simp [setConn]
 
 theorem quiet_process (w : World) (p : Pkt) : Quiet w { w with broker := w.broker.process p } := by
-  refine ⟨⟨?_, ?_, ?_, ?_, ?_, ?_, ?_, ?_, ?_, ?_, ?_, ?_, ?_, ?alive, ?_⟩, ?_, ?_, ?_, ?_⟩
+  refine ⟨⟨?_, ?_, ?_, ?_, ?_, ?_, ?_, ?_, ?_, ?_, ?_, ?_, ?_, ?alive, ?_, ?_⟩, ?_, ?_, ?_, ?_⟩
   case alive => intro j; exact id
   all_goals simp
 
 theorem quiet_pid (w : World) (x : List (Nat × Nat)) : Quiet w { w with pid := x } := by
-  refine ⟨⟨?_, ?_, ?_, ?_, ?_, ?_, ?_, ?_, ?_, ?_, ?_, ?_, ?_, ?alive, ?_⟩, ?_, ?_, ?_, ?_⟩
+  refine ⟨⟨?_, ?_, ?_, ?_, ?_, ?_, ?_, ?_, ?_, ?_, ?_, ?_, ?_, ?alive, ?_, ?_⟩, ?_, ?_, ?_, ?_⟩
   case alive => intro j; exact id
   all_goals simp
 
 theorem mono_stuck (w : World) : Mono w { w with stuck := true } := by
-  refine ⟨?_, ?_, ?_, ?_, ?_, ?_, ?_, ?_, ?_, ?_, ?_, ?_, ?_, ?alive, ?_⟩
+  refine ⟨?_, ?_, ?_, ?_, ?_, ?_, ?_, ?_, ?_, ?_, ?_, ?_, ?_, ?alive, ?_, ?_⟩
   case alive => intro j; exact id
   all_goals simp
 
@@ -236,7 +238,7 @@ theorem quiet_nextFault (w : World) : Quiet w (nextFault w).2 := by
   split
   · exact Quiet.refl w
   · next f rest h =>
-    refine ⟨⟨?_, ?_, ?_, ?_, ?_, ?_, ?_, ?_, ?_, ?_, ?_, ?_, ?_, ?alive, ?_⟩, ?_, ?_, ?_, ?_⟩
+    refine ⟨⟨?_, ?_, ?_, ?_, ?_, ?_, ?_, ?_, ?_, ?_, ?_, ?_, ?_, ?alive, ?_, ?_⟩, ?_, ?_, ?_, ?_⟩
     case alive => intro j; exact id
     all_goals simp [h]
     intro f hf; exact Or.inr hf
@@ -315,7 +317,7 @@ theorem send_spec (w : World) (k : Nat) (p : Pkt) (waits : Bool) :
 
 
 theorem mono_broker (w : World) (b : Broker) : Mono w { w with broker := b } := by
-  refine ⟨?_, ?_, ?_, ?_, ?_, ?_, ?_, ?_, ?_, ?_, ?_, ?_, ?_, ?alive, ?_⟩
+  refine ⟨?_, ?_, ?_, ?_, ?_, ?_, ?_, ?_, ?_, ?_, ?_, ?_, ?_, ?alive, ?_, ?_⟩
   case alive => intro j; exact id
   all_goals simp
 
@@ -553,7 +555,7 @@ theorem pubAttempt_spec (w : World) (k m qos : Nat) (dup : Bool) :
 
 /-- discharge `Quiet w w'` when `w'` is `w` with some bookkeeping fields replaced -/
 macro "quiet_triv" : tactic =>
-  `(tactic| (refine ⟨⟨?_, ?_, ?_, ?_, ?_, ?_, ?_, ?_, ?_, ?_, ?_, ?_, ?_, ?alive, ?_⟩, ?_, ?_, ?_, ?_⟩
+  `(tactic| (refine ⟨⟨?_, ?_, ?_, ?_, ?_, ?_, ?_, ?_, ?_, ?_, ?_, ?_, ?_, ?alive, ?_, ?_⟩, ?_, ?_, ?_, ?_⟩
              case alive => intro j; exact id
              all_goals simp))
 
@@ -579,7 +581,7 @@ theorem step_requeue {k : Nat} {w w1 : World} (e : ErrKind) (hs : List Entry) (h
     (al : (getConn w k).alive = true → w1.faults.length < w.faults.length) :
     Step k w (requeue w1 e hs) where
   mono := h.mono.trans (by
-    refine ⟨?_, ?_, ?_, ?_, ?_, ?_, ?_, ?_, ?_, ?_, ?_, ?_, ?_, ?alive, ?_⟩
+    refine ⟨?_, ?_, ?_, ?_, ?_, ?_, ?_, ?_, ?_, ?_, ?_, ?_, ?_, ?alive, ?_, ?_⟩
     case alive => intro j; exact id
     all_goals simp [requeue])
   catMono := fun _ => rfl
@@ -601,7 +603,7 @@ def enqueue (w : World) (e : Entry) : World := { w with retryQ := w.retryQ ++ [e
 theorem task_enqueue (k : Nat) (w : World) (e : Entry) (hne : w.retryQ.isEmpty = false) :
     TaskSpec k [entryReq e] w (enqueue w e) := by
   refine ⟨⟨?_, id, ?_, fun _ => rfl, Or.inl⟩, ?_⟩
-  · refine ⟨?_, ?_, ?_, ?_, ?_, ?_, ?_, ?_, ?_, ?_, ?_, ?_, ?_, ?alive, ?_⟩
+  · refine ⟨?_, ?_, ?_, ?_, ?_, ?_, ?_, ?_, ?_, ?_, ?_, ?_, ?_, ?alive, ?_, ?_⟩
     case alive => intro j; exact id
     all_goals simp [enqueue]
   · intro c
@@ -682,7 +684,7 @@ theorem keeps_of_stuck {reqs : List Req} {w w' : World} (h : w'.stuck = true) : 
 theorem task_keepRest (k : Nat) (w : World) (rest : List Entry) (hc : w.closeAfterTask = true) :
     TaskSpec k (rest.map entryReq) w { w with retryQ := w.retryQ ++ rest } := by
   refine ⟨⟨?_, id, fun _ => Or.inr hc, fun _ => rfl, fun g => ?_⟩, ?_⟩
-  · refine ⟨?_, ?_, ?_, ?_, ?_, ?_, ?_, ?_, ?_, ?_, ?_, ?_, ?_, ?alive, ?_⟩
+  · refine ⟨?_, ?_, ?_, ?_, ?_, ?_, ?_, ?_, ?_, ?_, ?_, ?_, ?_, ?alive, ?_, ?_⟩
     case alive => intro j; exact id
     all_goals simp
   · rw [g.2] at hc; exact absurd hc (by decide)
@@ -747,7 +749,7 @@ def taskReqs : Task → List Req
 
 theorem step_clearRetryQ (k : Nat) (w : World) : Step k w { w with retryQ := [] } := by
   refine ⟨?_, id, fun _ => Or.inl rfl, fun _ => rfl, Or.inl⟩
-  refine ⟨?_, ?_, ?_, ?_, ?_, ?_, ?_, ?_, ?_, ?_, ?_, ?_, ?_, ?alive, ?_⟩
+  refine ⟨?_, ?_, ?_, ?_, ?_, ?_, ?_, ?_, ?_, ?_, ?_, ?_, ?_, ?alive, ?_, ?_⟩
   case alive => intro j; exact id
   all_goals simp
 
@@ -954,7 +956,7 @@ theorem alive_setConnected (w : World) (k : Nat) (j : Nat) :
 
 theorem quiet_setConnected (w : World) (k : Nat) :
     Quiet w (setConn w k { getConn w k with connected := true }) := by
-  refine ⟨⟨?_, ?_, ?_, ?_, ?_, ?_, ?_, ?_, ?_, ?_, ?_, ?_, ?_, ?alive, ?_⟩, ?_, ?_, ?_, ?_⟩
+  refine ⟨⟨?_, ?_, ?_, ?_, ?_, ?_, ?_, ?_, ?_, ?_, ?_, ?_, ?_, ?alive, ?_, ?_⟩, ?_, ?_, ?_, ?_⟩
   case alive => intro j; rw [alive_setConnected]; exact id
   all_goals simp [setConn]
 
@@ -989,7 +991,7 @@ theorem quiet'_foldl_deliverInbound (inb : List (Nat × Nat)) (k : Nat) (w : Wor
 
 theorem quiet_clearSession (w : World) (sp : Bool) :
     Quiet w { w with broker := if sp then w.broker else w.broker.clearSession } := by
-  refine ⟨⟨?_, ?_, ?_, ?_, ?_, ?_, ?_, ?_, ?_, ?_, ?_, ?_, ?_, ?alive, ?_⟩, ?_, ?_, ?_, ?_⟩
+  refine ⟨⟨?_, ?_, ?_, ?_, ?_, ?_, ?_, ?_, ?_, ?_, ?_, ?_, ?_, ?alive, ?_, ?_⟩, ?_, ?_, ?_, ?_⟩
   case alive => intro j; exact id
   all_goals simp
   cases sp <;> simp [Broker.clearSession]
@@ -1083,7 +1085,9 @@ theorem keepsAll_step (w : World) (e : Ev) : KeepsAll w (step w e) := by
     simp only [step]
     split
     · exact KeepsAll.refl w
-    · split <;> exact KeepsAll.ofCore rfl
+    · split
+      · split <;> exact KeepsAll.ofCore rfl
+      · exact KeepsAll.ofCore rfl
   | waitElapsed => simp only [step]; split <;> first | exact KeepsAll.refl w | exact KeepsAll.ofCore rfl
   | cancelCtx =>
     simp only [step]
@@ -1092,7 +1096,7 @@ theorem keepsAll_step (w : World) (e : Ev) : KeepsAll w (step w e) := by
     · split
       · exact KeepsAll.ofCore rfl
       · exact KeepsAll.ofCore rfl
-      · exact KeepsAll.ofCore rfl
+      · split <;> exact KeepsAll.ofCore rfl
       · exact KeepsAll.trans (KeepsAll.ofCore rfl) (keepsAll_progress _)
       · exact KeepsAll.ofCore rfl
       · exact KeepsAll.ofCore rfl
@@ -1106,12 +1110,21 @@ theorem keepsAll_step (w : World) (e : Ev) : KeepsAll w (step w e) := by
       simp only [total, held, queued, pushTask, List.filterMap_append, List.count_append]
       simp [taskReq, List.count_cons]
       omega
-  | dialOk i => simp only [step]; split <;> first | exact KeepsAll.refl w | exact KeepsAll.ofCore rfl
+  | dialOk i =>
+    simp only [step]
+    split
+    · exact KeepsAll.refl w
+    · split
+      -- (deaf dialer) the transport arrives after the cancellation: a dead connection, then the task goroutine runs
+      · exact KeepsAll.trans (KeepsAll.ofCore rfl) (keepsAll_progress _)
+      · exact KeepsAll.ofCore rfl
   | dialFail =>
     simp only [step]
     split
     · exact KeepsAll.refl w
-    · split <;> exact KeepsAll.ofCore rfl
+    · split
+      · exact KeepsAll.ofCore rfl
+      · split <;> exact KeepsAll.ofCore rfl
   | connackOk sp inb =>
     simp only [step]
     split
@@ -1538,6 +1551,8 @@ theorem inv_dialOk (w : World) (i : Nat) (h : Inv w) :
   · next hp => exact ⟨h, rfl, fun h => absurd h hp, fun _ => rfl⟩
   · next hp =>
     have hp : w.phase = .dialGate := by simpa using hp
+    -- the context has not been cancelled: the branch of the deaf dialer is not taken
+    rw [if_neg (by simp [h.ctx])]
     refine ⟨⟨h.stopped, h.stuck, h.cat, h.sil, h.nodisc, h.ctx, ?_, ?_, ?_, ?_, ?_⟩, rfl,
       fun _ => ⟨_, rfl⟩, fun h => absurd hp h⟩
     · intro h; exact absurd h (by simp)
@@ -1562,7 +1577,7 @@ theorem inv_dialFail (w : World) (h : Inv w) : Inv (step w .dialFail) := by
   · exact h
   · next hp =>
     have hp : w.phase = .dialGate := by simpa using hp
-    rw [if_neg (by simp [h.stopped])]
+    rw [if_neg (by simp [h.stopped]), if_neg (by simp [h.ctx])]
     refine ⟨h.stopped, h.stuck, h.cat, h.sil, h.nodisc, h.ctx, ?_, fun _ => h.dial (by rw [hp]; rfl),
       ?_, ?_, ?_⟩
     · intro h; exact absurd h (by simp)
@@ -1601,7 +1616,7 @@ theorem alive_setHandler (w : World) (k : Nat) (x : Option Nat) (j : Nat) :
 
 theorem quiet'_setHandler (w : World) (k : Nat) (x : Option Nat) :
     Quiet' w (setConn w k { getConn w k with handler := x }) := by
-  refine ⟨⟨⟨?_, ?_, ?_, ?_, ?_, ?_, ?_, ?_, ?_, ?_, ?_, ?_, ?_, ?alive, ?_⟩, ?_, ?_, ?_, ?_⟩, alive_setHandler w k x⟩
+  refine ⟨⟨⟨?_, ?_, ?_, ?_, ?_, ?_, ?_, ?_, ?_, ?_, ?_, ?_, ?_, ?alive, ?_, ?_⟩, ?_, ?_, ?_, ?_⟩, alive_setHandler w k x⟩
   case alive => intro j; rw [alive_setHandler]; exact id
   all_goals simp [setConn]
 
@@ -1751,10 +1766,10 @@ theorem ctx_connectFailed (w : World) (k : Nat) : (connectFailed w k).ctxCancell
 theorem ctx_step (w : World) (e : Ev) (he : isCancel e = false) :
     (step w e).ctxCancelled = w.ctxCancelled := by
   cases e with
-  | start => simp only [step]; split <;> first | rfl | (split <;> rfl)
+  | start => simp only [step]; split <;> first | rfl | (split <;> first | rfl | (split <;> rfl))
   | app r => simp only [step]; split <;> first | rfl | exact ctx_progress _
-  | dialOk i => simp only [step]; split <;> rfl
-  | dialFail => simp only [step]; split <;> first | rfl | (split <;> rfl)
+  | dialOk i => simp only [step]; split <;> first | rfl | (split <;> first | rfl | exact ctx_progress _)
+  | dialFail => simp only [step]; split <;> first | rfl | (split <;> first | rfl | (split <;> rfl))
   | waitElapsed => simp only [step]; split <;> rfl
   | cancelCtx => exact absurd he (by decide)
   | connackOk sp inb =>
@@ -1807,7 +1822,7 @@ theorem ctx_cancel_effective (w : World) (h : w.connectReturned.isSome = false) 
   | false =>
     simp only [step, hc, h]
     simp only [Bool.false_eq_true, or_self, ↓reduceIte]
-    split <;> first | rfl | exact (ctx_progress _).trans rfl
+    split <;> first | rfl | exact (ctx_progress _).trans rfl | (split <;> rfl)
 
 /-- a cancellation after Connect has returned has no effect (reconnclient.go:97-101) -/
 theorem cancel_ineffective (w : World) (h : w.connectReturned.isSome = true) : step w .cancelCtx = w := by
@@ -2040,7 +2055,9 @@ theorem progress_connectFailed_sa (w : World) (k : Nat) (h : w.stuck = true) :
 theorem stuck_step (w : World) (e : Ev) (h : w.stuck = true) :
     (step w e).stuck = true ∧ (step w e).broker.acked = w.broker.acked := by
   cases e with
-  | start => simp only [step]; split <;> first | exact ⟨h, rfl⟩ | (split <;> exact ⟨h, rfl⟩)
+  | start =>
+    simp only [step]
+    split <;> first | exact ⟨h, rfl⟩ | (split <;> first | exact ⟨h, rfl⟩ | (split <;> exact ⟨h, rfl⟩))
   | waitElapsed => simp only [step]; split <;> exact ⟨h, rfl⟩
   | cancelCtx =>
     simp only [step]
@@ -2049,7 +2066,7 @@ theorem stuck_step (w : World) (e : Ev) (h : w.stuck = true) :
     · split
       · exact ⟨h, rfl⟩
       · exact ⟨h, rfl⟩
-      · exact ⟨h, rfl⟩
+      · split <;> exact ⟨h, rfl⟩
       · exact progress_sa _ h
       · exact ⟨h, rfl⟩
       · exact ⟨h, rfl⟩
@@ -2058,12 +2075,20 @@ theorem stuck_step (w : World) (e : Ev) (h : w.stuck = true) :
     split
     · exact ⟨h, rfl⟩
     · exact progress_sa _ h
-  | dialOk i => simp only [step]; split <;> exact ⟨h, rfl⟩
+  | dialOk i =>
+    simp only [step]
+    split
+    · exact ⟨h, rfl⟩
+    · split
+      · exact progress_sa _ h
+      · exact ⟨h, rfl⟩
   | dialFail =>
     simp only [step]
     split
     · exact ⟨h, rfl⟩
-    · split <;> exact ⟨h, rfl⟩
+    · split
+      · exact ⟨h, rfl⟩
+      · split <;> exact ⟨h, rfl⟩
   | connackOk sp inb =>
     cases hp : w.phase with
     | connackGate k =>
@@ -2119,6 +2144,378 @@ theorem stuck_foldl (evs : List Ev) (w : World) (h : w.stuck = true) :
     have := stuck_step w e h
     have := ih _ this.1
     exact ⟨this.1, this.2.trans ‹_ ∧ _›.2⟩
+
+
+/-! ### a dialer that looks at its context (`deafDialer = false`)
+
+  The two branches of `step` guarded by `ctxCancelled ∧ connectReturned.isNone` in phase `.dialGate` are
+  reachable only with a dialer that ignores its context: with `deafDialer = false` an effective
+  cancellation ends the loop (or finds it not started), and it stays there. -/
+
+/-- what the task goroutine leaves alone -/
+theorem frame_runTasks (fuel : Nat) (w : World) :
+    (runTasks fuel w).cfg = w.cfg ∧ (runTasks fuel w).phase = w.phase ∧
+      (runTasks fuel w).connectReturned = w.connectReturned := by
+  induction fuel generalizing w with
+  | zero => exact ⟨rfl, rfl, rfl⟩
+  | succ fuel ih =>
+    rw [runTasks_succ]
+    split
+    · exact ⟨rfl, rfl, rfl⟩
+    · split
+      · exact ⟨rfl, rfl, rfl⟩
+      · split
+        · exact ⟨rfl, rfl, rfl⟩
+        · exact ⟨rfl, rfl, rfl⟩
+        · next t rest k _ _ =>
+          have m := runTask_mono (popTask w rest) k t
+          split
+          · exact ⟨m.cfg, m.phase, m.cret⟩
+          · have a : (afterTask (runTask (popTask w rest) k t) k).cfg = (runTask (popTask w rest) k t).cfg ∧
+                (afterTask (runTask (popTask w rest) k t) k).phase = (runTask (popTask w rest) k t).phase ∧
+                (afterTask (runTask (popTask w rest) k t) k).connectReturned
+                  = (runTask (popTask w rest) k t).connectReturned := by
+              unfold afterTask; split <;> exact ⟨rfl, rfl, rfl⟩
+            have i := ih (afterTask (runTask (popTask w rest) k t) k)
+            exact ⟨i.1.trans (a.1.trans m.cfg), i.2.1.trans (a.2.1.trans m.phase),
+              i.2.2.trans (a.2.2.trans m.cret)⟩
+
+theorem frame_loopReact (w : World) :
+    (loopReact w).cfg = w.cfg ∧ (loopReact w).connectReturned = w.connectReturned ∧
+      ((loopReact w).phase = w.phase ∨
+        ((∃ k, w.phase = .up k) ∧ ((loopReact w).phase = .exited ∨ (loopReact w).phase = .backoff))) := by
+  unfold loopReact
+  split
+  · next k hk =>
+    split
+    · exact ⟨rfl, rfl, Or.inl rfl⟩
+    · split
+      · exact ⟨rfl, rfl, Or.inr ⟨⟨k, hk⟩, Or.inl rfl⟩⟩
+      · exact ⟨rfl, rfl, Or.inr ⟨⟨k, hk⟩, Or.inr rfl⟩⟩
+  · exact ⟨rfl, rfl, Or.inl rfl⟩
+
+/-- `progress` leaves the configuration and what Connect returned alone; the only thing it does to the
+    loop is to take it out of `.up` -/
+theorem frame_progress (w : World) :
+    (progress w).cfg = w.cfg ∧ (progress w).connectReturned = w.connectReturned ∧
+      ((progress w).phase = w.phase ∨
+        ((∃ k, w.phase = .up k) ∧ ((progress w).phase = .exited ∨ (progress w).phase = .backoff))) := by
+  unfold progress
+  have r := frame_runTasks (w.taskQ.length + 1) w
+  have l := frame_loopReact (runTasks (w.taskQ.length + 1) w)
+  rw [r.1, r.2.1, r.2.2] at l
+  exact l
+
+theorem cfg_connectFailed (w : World) (k : Nat) : (connectFailed w k).cfg = w.cfg := by
+  unfold connectFailed
+  simp only
+  split <;> rfl
+
+/-- the configuration never changes -/
+theorem cfg_step (w : World) (e : Ev) : (step w e).cfg = w.cfg := by
+  cases e with
+  | start => simp only [step]; split <;> first | rfl | (split <;> first | rfl | (split <;> rfl))
+  | app r => simp only [step]; split <;> first | rfl | exact (frame_progress _).1
+  | dialOk i => simp only [step]; split <;> first | rfl | (split <;> first | rfl | exact (frame_progress _).1)
+  | dialFail => simp only [step]; split <;> first | rfl | (split <;> first | rfl | (split <;> rfl))
+  | waitElapsed => simp only [step]; split <;> rfl
+  | cancelCtx =>
+    simp only [step]
+    split
+    · rfl
+    · split <;> first | rfl | exact (frame_progress _).1 | (split <;> rfl)
+  | connackOk sp inb =>
+    cases hp : w.phase with
+    | connackGate k =>
+      rw [step_connackOk w k sp inb hp, (frame_progress _).1]
+      exact (connackEnd_spec _ k sp).cfg.trans (quiet'_connackMid w k sp inb).quiet.mono.cfg
+    | idle => simp only [step, hp]
+    | backoff => simp only [step, hp]
+    | dialGate => simp only [step, hp]
+    | up k => simp only [step, hp]
+    | exited => simp only [step, hp]
+  | connackRefused =>
+    simp only [step]
+    split
+    · exact (frame_progress _).1.trans (cfg_connectFailed ..)
+    · rfl
+  | connackNever =>
+    simp only [step]
+    split
+    · split
+      · exact (frame_progress _).1.trans (cfg_connectFailed ..)
+      · rfl
+    · rfl
+  | peerClose =>
+    simp only [step]
+    split
+    · exact (frame_progress _).1.trans (quiet_kill ..).mono.cfg
+    · rfl
+  | inbound m qos =>
+    simp only [step]
+    split
+    · exact (quiet'_deliverInbound ..).quiet.mono.cfg
+    · rfl
+  | handle x =>
+    simp only [step]
+    split <;> rfl
+  | disconnect =>
+    simp only [step]
+    split
+    · rfl
+    · have := (frame_progress { pushTask w .disconnect with stopped := true }).1
+      split <;> exact this
+
+theorem cfg_foldl (evs : List Ev) (w : World) : (evs.foldl step w).cfg = w.cfg := by
+  induction evs generalizing w with
+  | nil => rfl
+  | cons e rest ih => rw [List.foldl_cons, ih]; exact cfg_step w e
+
+/-- with a dialer that looks at its context: once the context given to Connect is cancelled (which takes
+    effect only while Connect has not returned), Connect never returns a session and the loop is not
+    running — it has not been started yet or it has ended; and while a connection is up, Connect has
+    returned -/
+structure Aware (w : World) : Prop where
+  cancelled : w.ctxCancelled = true → w.connectReturned = none ∧ (w.phase = .idle ∨ w.phase = .exited)
+  up : ∀ k, w.phase = .up k → w.connectReturned.isSome = true
+
+theorem Aware.notGate {w : World} (h : Aware w) (hp : w.phase ≠ .idle) (hx : w.phase ≠ .exited) :
+    w.ctxCancelled = false := by
+  cases hc : w.ctxCancelled with
+  | false => rfl
+  | true =>
+    cases (h.cancelled hc).2 with
+    | inl h => exact absurd h hp
+    | inr h => exact absurd h hx
+
+theorem Aware.ofFrame {w w' : World} (h : Aware w) (hc : w'.ctxCancelled = w.ctxCancelled)
+    (hr : w'.connectReturned = w.connectReturned) (hp : w'.phase = w.phase) : Aware w' := by
+  refine ⟨fun c => ?_, fun k hk => ?_⟩
+  · rw [hr, hp]; exact h.cancelled (hc ▸ c)
+  · rw [hr]; exact h.up k (hp ▸ hk)
+
+theorem Aware.ofQuiet' {w w' : World} (q : Quiet' w w') (h : Aware w) : Aware w' :=
+  h.ofFrame q.quiet.mono.ctx q.quiet.mono.cret q.quiet.mono.phase
+
+theorem Aware.progress {w : World} (h : Aware w) : Aware (progress w) := by
+  have f := frame_progress w
+  refine ⟨fun c => ?_, fun k hk => ?_⟩
+  · rw [ctx_progress] at c
+    have a := h.cancelled c
+    rw [f.2.1]
+    refine ⟨a.1, ?_⟩
+    cases f.2.2 with
+    | inl e => rw [e]; exact a.2
+    | inr e =>
+      obtain ⟨⟨k, hk⟩, _⟩ := e
+      rw [hk] at a
+      exact absurd a.2 (by simp)
+  · rw [f.2.1]
+    cases f.2.2 with
+    | inl e => exact h.up k (e ▸ hk)
+    | inr e =>
+      rw [hk] at e
+      exact absurd e.2 (by simp)
+
+/-- a world whose loop is not `.up` and whose context has not been cancelled -/
+theorem Aware.ofLive {w : World} (hc : w.ctxCancelled = false) (hp : ∀ k, w.phase ≠ .up k) : Aware w :=
+  ⟨fun c => absurd (hc ▸ c) (by decide), fun k hk => absurd hk (hp k)⟩
+
+/-- a world whose loop has ended with Connect still waiting -/
+theorem Aware.ofExited {w : World} (hr : w.connectReturned = none) (hp : w.phase = .exited) : Aware w :=
+  ⟨fun _ => ⟨hr, Or.inr hp⟩, fun k hk => absurd (hp ▸ hk) (by simp)⟩
+
+theorem connackEnd_cret (w : World) (k : Nat) (sp : Bool) :
+    (connackEnd w k sp).connectReturned.isSome = true := by
+  have e : (connackEnd w k sp).connectReturned
+      = if w.connectReturned.isNone then some sp else w.connectReturned := by
+    simp only [connackEnd, pushTask]
+    repeat' split
+    all_goals rfl
+  rw [e]
+  cases h : w.connectReturned <;> simp
+
+theorem aware_step (w : World) (e : Ev) (hd : w.cfg.deafDialer = false) (h : Aware w) : Aware (step w e) := by
+  cases e with
+  | start =>
+    simp only [step]
+    split
+    · exact h
+    · next hp =>
+      have hp : w.phase = .idle := by simpa using hp
+      split
+      · next hc =>
+        rw [if_neg (by simp [hd])]
+        exact Aware.ofExited (h.cancelled hc).1 rfl
+      · next hc => exact Aware.ofLive (by simpa using hc) (by simp)
+  | app r =>
+    simp only [step]
+    split
+    · exact h.ofFrame rfl rfl rfl
+    · exact (h.ofFrame (w' := pushTask { w with accepted := w.accepted ++ [r] } (.req r)) rfl rfl rfl).progress
+  | dialOk i =>
+    simp only [step]
+    split
+    · exact h
+    · next hp =>
+      have hp : w.phase = .dialGate := by simpa using hp
+      have hc := h.notGate (by simp [hp]) (by simp [hp])
+      rw [if_neg (by simp [hc])]
+      exact Aware.ofLive hc (by simp)
+  | dialFail =>
+    simp only [step]
+    split
+    · exact h
+    · next hp =>
+      have hp : w.phase = .dialGate := by simpa using hp
+      have hc := h.notGate (by simp [hp]) (by simp [hp])
+      split
+      · exact Aware.ofLive hc (by simp)
+      · rw [if_neg (by simp [hc])]
+        exact Aware.ofLive hc (by simp)
+  | waitElapsed =>
+    simp only [step]
+    split
+    · next hp => exact Aware.ofLive (h.notGate (by simp [hp]) (by simp [hp])) (by simp)
+    · exact h
+  | cancelCtx =>
+    simp only [step]
+    split
+    · exact h
+    · next hn =>
+      have hr : w.connectReturned = none := by
+        cases e : w.connectReturned with
+        | none => rfl
+        | some b => exact absurd (Or.inr (by simp [e])) hn
+      cases hp : w.phase with
+      | idle =>
+        exact ⟨fun _ => ⟨hr, Or.inl rfl⟩, fun k hk => absurd hk (by simp)⟩
+      | backoff => exact Aware.ofExited hr rfl
+      | dialGate =>
+        simp only
+        rw [if_neg (by simp [hd])]
+        exact Aware.ofExited hr rfl
+      | connackGate k =>
+        exact (Aware.ofExited (w := { kill { w with ctxCancelled := true, connReady := true } k with
+          phase := .exited, connectErr := true }) hr rfl).progress
+      | exited => exact Aware.ofExited hr rfl
+      | up k =>
+        have := h.up k hp
+        rw [hr] at this
+        exact absurd this (by simp)
+  | connackOk sp inb =>
+    cases hp : w.phase with
+    | connackGate k =>
+      rw [step_connackOk w k sp inb hp]
+      have hc := h.notGate (by simp [hp]) (by simp [hp])
+      have q := (quiet'_connackMid w k sp inb).quiet
+      have e := connackEnd_spec (connackMid w k sp inb) k sp
+      refine Aware.progress ⟨fun c => ?_, fun _ _ => connackEnd_cret ..⟩
+      rw [e.ctx, q.mono.ctx, hc] at c
+      exact absurd c (by decide)
+    | idle => simp only [step, hp]; exact h
+    | backoff => simp only [step, hp]; exact h
+    | dialGate => simp only [step, hp]; exact h
+    | up k => simp only [step, hp]; exact h
+    | exited => simp only [step, hp]; exact h
+  | connackRefused =>
+    simp only [step]
+    split
+    · next k hp =>
+      have hc := h.notGate (by simp [hp]) (by simp [hp])
+      refine (Aware.ofLive ((ctx_connectFailed w k).trans hc) ?_).progress
+      unfold connectFailed
+      simp only
+      split <;> simp
+    · exact h
+  | connackNever =>
+    simp only [step]
+    split
+    · next k hp =>
+      split
+      · have hc := h.notGate (by simp [hp]) (by simp [hp])
+        refine (Aware.ofLive ((ctx_connectFailed w k).trans hc) ?_).progress
+        unfold connectFailed
+        simp only
+        split <;> simp
+      · exact h
+    · exact h
+  | peerClose =>
+    simp only [step]
+    split
+    · next k hp =>
+      have q := quiet_kill w k
+      exact (h.ofFrame q.mono.ctx q.mono.cret q.mono.phase).progress
+    · exact h
+  | inbound m qos =>
+    simp only [step]
+    split
+    · exact Aware.ofQuiet' (quiet'_deliverInbound ..) h
+    · exact h
+  | handle x =>
+    simp only [step]
+    split <;> exact h.ofFrame rfl rfl rfl
+  | disconnect =>
+    simp only [step]
+    split
+    · exact h
+    · have a := (h.ofFrame (w' := { pushTask w .disconnect with stopped := true }) rfl rfl rfl).progress
+      generalize progress { pushTask w .disconnect with stopped := true } = w' at a
+      split
+      · next k hk =>
+        refine ⟨fun c => ?_, fun k hk => absurd hk (by simp)⟩
+        have := (a.cancelled c).2
+        rw [hk] at this
+        exact absurd this (by simp)
+      · next hk =>
+        refine ⟨fun c => ?_, fun k hk => absurd hk (by simp)⟩
+        have := (a.cancelled c).2
+        rw [hk] at this
+        exact absurd this (by simp)
+      · exact a
+
+theorem aware_foldl (evs : List Ev) (w : World) (hd : w.cfg.deafDialer = false) (h : Aware w) :
+    Aware (evs.foldl step w) := by
+  induction evs generalizing w with
+  | nil => exact h
+  | cons e rest ih =>
+    rw [List.foldl_cons]
+    exact ih _ (by rw [cfg_step]; exact hd) (aware_step w e hd h)
+
+theorem aware_init (s : Script) : Aware (init s) :=
+  ⟨fun c => absurd c (by simp [init]), fun k hk => absurd hk (by simp [init])⟩
+
+/-- the guard of the two deaf-dialer branches of `.dialOk` / `.dialFail` -/
+def deafBranch (w : World) : Prop :=
+  w.phase = .dialGate ∧ w.ctxCancelled = true ∧ w.connectReturned.isNone = true
+
+theorem Aware.noDeafBranch {w : World} (h : Aware w) : ¬ deafBranch w := by
+  intro ⟨hp, hc, _⟩
+  have := h.notGate (by simp [hp]) (by simp [hp])
+  rw [hc] at this
+  exact absurd this (by decide)
+
+/-- with a context-aware dialer `.dialOk` and `.dialFail` are what they were before `deafDialer` existed -/
+theorem dialOk_aware (w : World) (i : Nat) (h : Aware w) (hp : w.phase = .dialGate) :
+    step w (.dialOk i) =
+      { w with conns := w.conns ++ [{ ctr := i, handler := w.handler, pkts := [(.connect, .sent .ok)] }],
+               cli := some w.conns.length, connReady := false, goroutine := true,
+               gConnected := if w.goroutine ∧ w.gConnected ∧ ¬ w.stuck then false else w.gConnected,
+               phase := .connackGate w.conns.length } := by
+  have hc := h.notGate (by simp [hp]) (by simp [hp])
+  simp only [step]
+  rw [if_neg (by simp [hp]), if_neg (by simp [hc])]
+
+theorem dialFail_aware (w : World) (h : Aware w) (hp : w.phase = .dialGate) :
+    step w .dialFail =
+      if w.stopped then { w with phase := .exited }
+      else { w with phase := .backoff, waits := w.waits ++ [w.waitExp], waitExp := w.waitExp + 1 } := by
+  have hc := h.notGate (by simp [hp]) (by simp [hp])
+  simp only [step]
+  rw [if_neg (by simp [hp])]
+  split
+  · rfl
+  · rw [if_neg (by simp [hc])]
 
 
 end Mqtt.Retry
